@@ -112,7 +112,8 @@ def check_property(pid, tier, seed):
                                  map_shim_files=k.get("map_shim_files", ()),
                                  timeout_s=k.get("timeout_s", 2400) if tier == "quick" else 14400,
                                  harness_timeout=k.get("harness_timeout", "900s") if tier == "quick" else "3000s",
-                                 extra_args=k.get("extra_args", ()), inject=inject)
+                                 extra_args=k.get("extra_args", ()), inject=inject,
+                                 jobs=(k.get("thorough_jobs") if tier == "thorough" else k.get("jobs")))
             cmds.append(re.sub(r"/var/tmp/[^ ]*", "<scratch>/target", kr.cmd))
             assumptions_scan_paths += k["files"] + ["shim/harness_support.rs"]
             solver_time += sum((r.time_s or 0) for r in kr.results.values())
